@@ -5,7 +5,7 @@
  *   case tmark=<+|0 per chunk> limit=<n> hdr=<hex>[;<hex>...] body=<blob> cuts=<spec> [xflags=<flags> xfile=<blob> xerrby=<n>]
  *        fill=<byte>           byte value missing extents are pre-filled with (default 0xAA)
  *        hdr2=<hex>[;..] body2=<blob> between=<0|1|2|3>   a second response on the same zckDL: after the first one nothing (0),
- *                              zck_dl_set_range again (1), zck_dl_reset + a new zck_get_missing_range + zck_dl_set_range (2) or zck_dl_reset alone (3), then the
+ *                              zck_dl_set_range again (1), zck_dl_reset + a new zck_get_missing_range + zck_dl_set_range (2) zck_dl_reset alone (3), or a rescan + zck_reset_failed_chunks + reset + new request (4), then the
  *                              header lines hdr2 and the body body2 (whole, or one byte per call when cuts=all1)
  *        appcb=1               the application's own header and write callbacks are registered (zck_dl_set_header_cb, ..._write_cb,
  *                              with their data pointers) as zck.h documents; they accept everything and record what they were given -
@@ -99,15 +99,22 @@ static outcome run_partition(fcase *k, const blob *t0, const long *cuts, int ncu
         pos = end;
     }
     if(k->has2 && o.bad < 0) {
-        if(k->between == 2 || k->between == 3) zck_dl_reset(dl);
-        if(k->between == 2) {
+        if(k->between == 4) {
+            /* a careful client after a dropped connection: scan the target again, forget failed chunks (the file position is now
+             * wherever the scan left it), then reset and ask anew */
+            zck_clear_error(zck);
+            zck_find_valid_chunks(zck);
+            zck_reset_failed_chunks(zck);
+        }
+        if(k->between == 2 || k->between == 3 || k->between == 4) zck_dl_reset(dl);
+        if(k->between == 2 || k->between == 4) {
             /* what the documented client does between two requests: a new request for what is still missing */
             zck_range_free(&range);
             zck_clear_error(zck);
             range = zck_get_missing_range(zck, k->limit);
             if(!range) die("feed: no second range");
         }
-        if(k->between == 1 || k->between == 2) zck_dl_set_range(dl, range);
+        if(k->between == 1 || k->between == 2 || k->between == 4) zck_dl_set_range(dl, range);
         for(int i = 0; i < k->nhdr2; i++) {
             blob h = blob_dup(k->hdr2[i].p, k->hdr2[i].n);
             zck_header_cb((char *)h.p, 1, h.n, dl);
